@@ -302,7 +302,7 @@ def replay_devices(rng):
     return devs
 
 
-def replay_plan(rng, clear_p=0.12):
+def replay_plan(rng, clear_p=0.12, fin_p=0.25):
     """runs made of points; checkpoints at varying spacing; every feature that touches the cache"""
     ck_p = rng.choice([0.3, 0.6, 0.9, 1.0])
 
@@ -388,9 +388,11 @@ def replay_plan(rng, clear_p=0.12):
         body += extras() if rng.random() < 0.3 else []
     unst = [M("unstage", d) for d in reversed(staged)]
     r = rng.random()
-    if r < 0.25 and unst:
-        return {"k": "try", "body": seq(*body), "handler": None, "fin": seq(*unst)}, {}
-    if r < 0.5:
+    if r < fin_p and (unst or fin_p > 0.25):
+        fin = unst + ([M("null")] if (not unst or rng.random() < 0.3) else [])
+        handler = seq(M("null")) if rng.random() < 0.15 else None
+        return {"k": "try", "body": seq(*body), "handler": handler, "fin": seq(*fin)}, {}
+    if r < max(0.5, fin_p + 0.1):
         # an implicit-checkpoint command that FAILS inside try/except: the plan survives and goes on; a failed
         # command is not a checkpoint, and a non-replayable command must not be replayed even then
         kind = rng.choice(["stage", "unstage", "close_run", "unmonitor"])
@@ -435,19 +437,26 @@ class ReplayGen:
     """Alternates (a) sweeps: one plan, one interruption (pause / suspension / deferred pause) at EVERY arrival
     index -- one scenario per index -- and (b) single scenarios with several interruptions."""
 
-    def __init__(self, clear_p=0.12, kinds=("pause", "suspend", "defer"), sweep_kinds=("pause", "suspend"), sweep_cap=10):
+    def __init__(self, clear_p=0.12, kinds=("pause", "suspend", "defer"), sweep_kinds=("pause", "suspend"), sweep_cap=10, fin_p=0.25):
         self.queue = []
-        self.clear_p, self.kinds, self.sweep_kinds, self.sweep_cap = clear_p, kinds, sweep_kinds, sweep_cap
+        self.clear_p, self.kinds, self.sweep_kinds, self.sweep_cap, self.fin_p = clear_p, kinds, sweep_kinds, sweep_cap, fin_p
         self.early = False
+        self.after_cmd = None     # bias the interruptions to arrivals after the first execution of this command
+        self.after_idx = None
 
     def base(self, rng):
-        plan, need = replay_plan(rng, self.clear_p)
+        plan, need = replay_plan(rng, self.clear_p, self.fin_p)
         devs = replay_devices(rng)
         self.early = bool(need.pop("_early", False))
         for d, modes in need.items():
             devs[d]["modes"].update(modes)
-        sc = {"record_interruptions": rng.random() < 0.4, "devices": devs, "plan": plan, "script": {}, "decisions": [rng.choice(["resume"] * 8 + ["abort", "stop", "halt"]) for _ in range(8)], "max_arrivals": 300}
+        sc = {"record_interruptions": rng.random() < 0.4, "devices": devs, "plan": plan, "script": {}, "decisions": [rng.choice(["resume"] * 8 + ["abort", "stop", "halt"]) for _ in range(7)] + ["halt"], "max_arrivals": 300}
         o = E.run_scenario(E.number(copy.deepcopy(sc)))
+        self.after_idx = None
+        if self.after_cmd:
+            tk = next((t for t, m in zip(o["ticks"]["msgs"], o["msgs"]) if m[0] == self.after_cmd), None)
+            if tk is not None:
+                self.after_idx = sum(1 for t in o["ticks"]["arrivals"] if t < tk)
         return sc, len(o["arrivals"])
 
     def __call__(self, rng):
@@ -460,11 +469,13 @@ class ReplayGen:
             if n > self.sweep_cap:
                 # a window of consecutive arrival indices (plus a few scattered ones)
                 a0 = 0 if self.early else rng.randrange(0, n - self.sweep_cap + 1)
+                if self.after_idx is not None and rng.random() < 0.85:
+                    a0 = max(0, min(self.after_idx - 1, n - self.sweep_cap))
                 idxs = sorted(set(range(a0, a0 + self.sweep_cap - 2)) | set(rng.sample(idxs, 2)))
             out = []
             for at in idxs:
                 s2 = copy.deepcopy(sc)
-                s2["decisions"] = ["resume"] * 8
+                s2["decisions"] = ["resume"] * 7 + ["halt"]   # the last one bounds the harness loop if resume() itself fails
                 interruption(rng, at, 0, s2["script"], (kind,))
                 out.append(E.number(s2))
             self.queue = out[::-1]
@@ -472,6 +483,8 @@ class ReplayGen:
         k = rng.choice([1, 2, 2, 3, 4])
         for f in range(k):
             at = rng.randrange(0, min(n, 9)) if (self.early and f == 0) else rng.randrange(0, n + 3)
+            if self.after_idx is not None and f == 0 and self.after_idx < n and rng.random() < 0.8:
+                at = rng.randrange(self.after_idx, n)
             interruption(rng, at, f, sc["script"], self.kinds)
         if rng.random() < 0.15:
             sc["script"].setdefault(str(rng.randrange(0, n + 1)), []).append({"a": rng.choice(["abort", "stop", "halt"])})
